@@ -14,14 +14,14 @@ LEVEL = "exploration"
 RULE = ("rtf_page.border_first/last and rtf_body.border_first/last drawn from the 16 styles (incl. none) x header "
         "mode {default, explicit, two-row, none} x footnote/source {table, paragraph, absent} x placements x 1..many "
         "pages x strategies {plain, page_by (spanning / new_page column), subline_by} x user border_top/bottom/left/"
-        "right as scalar or per-column (matrix on one-page tables); multi-section documents for the first/last "
+        "right as scalar, per-column or matrix; multi-section documents for the first/last "
         "clauses. non-trivial = >=2 pages or a table-rendered footnote/source; distinct by spec hash")
 ASSUMPTIONS = ["a non-empty page/body border setting must appear exactly; for an empty setting ('') the statement can "
                "be read as 'no border' or 'no override' and both are accepted",
                "boundary cells whose own user border for that edge is non-empty are skipped (the quantifier puts "
                "per-cell user borders on interior rows)",
                "inner right edges are the neighbour's left edge; only an emitted one must equal the user's value",
-               "matrix-shaped user borders only on one-page tables (page re-basing of matrices is C09's subject)"]
+               "matrix-shaped user borders are bound to the original row (C09's rule) on every page"]
 DECIDING = ["docs_parsed", "first_row_top_checks", "last_row_bottom_checks", "page_break_bottom_checks",
             "page_first_data_row_checks", "interior_edges_checked"]
 FLOOR = {"quick": 1500, "thorough": 25000}
@@ -77,7 +77,7 @@ def gen_spec(rng):
             body[k] = rng.choice(G.BORDERS)
     for k in ("border_top", "border_bottom", "border_left", "border_right"):
         if rng.random() < 0.35:
-            shape = rng.choice(["scalar", "row"] + (["matrix"] if (not multi and strategy == "plain") else []))
+            shape = rng.choice(["scalar", "row", "matrix"])
             body[k] = G.shaped(rng, k, n, nc, shape=shape)
     for k in ("footnote", "source"):
         if isinstance(spec.get(k), dict):
